@@ -107,7 +107,7 @@ def _gen_rep(cfg, depth, budget):
         mn = r.choice((0, 0, 1, 2, 3, 43, 44))
         mx = mn + r.choice((0, 1, 2, 5, 43 - mn if mn < 43 else 1, 44 - mn if mn < 44 else 0,
                             45 - mn if mn < 45 else 2, 30))
-    if budget >= 4096 and r.random() < 0.02:
+    if budget >= 1024 and r.random() < 0.02:
         # an explicit count beyond 16 bits on a plain literal (no draws inside, so no draw cap)
         mn = r.choice((65535, 65536, 70000))
         mx = r.choice((mn, None))
